@@ -19,6 +19,9 @@ type printer struct {
 	pfx    string // "P<id>"
 	nargs  int    // directive arguments rendered so far
 	errAt  int    // which of them mentions the user's variable err (0: none)
+	// mutVar/mutNew: the next argument rendered overwrites this variable with that value
+	mutVar, mutNew string
+	mutDone        bool
 }
 
 func (pr *printer) probe(what, expr string) string {
@@ -27,6 +30,10 @@ func (pr *printer) probe(what, expr string) string {
 	// the directive the value itself depends on which err was seen, so the
 	// property the argument belongs to notices a capture as well.
 	pr.nargs++
+	if pr.mutVar != "" {
+		expr = fmt.Sprintf("rt.Mut(&%s, %s, %s)", pr.mutVar, pr.mutNew, expr)
+		pr.mutVar = ""
+	}
 	if pr.errAt != 0 && pr.nargs == pr.errAt {
 		switch what {
 		case "continue-on-error":
@@ -45,20 +52,41 @@ func (pr *printer) probe(what, expr string) string {
 	return fmt.Sprintf("rt.Arg(h, %d, %s)", k, expr)
 }
 
+// fnProbe wraps a user function expression (predicate, parallel task, slice /
+// map / End function) in an argument probe in a third of the places: those
+// expressions, too, are evaluated once, in order, before anything runs.
+func (pr *printer) fnProbe(rng *rand.Rand, what, expr string) string {
+	if pr.wrap && rng.Intn(3) == 0 {
+		return pr.probe(what, expr)
+	}
+	pr.nargs++
+	return expr
+}
+
 func (pr *printer) tname(i int) string { return fmt.Sprintf("%sT%d", pr.pfx, i) }
 
 // mk / un return the constructor and projection of flow type i as spelled in
 // the program file.
 func (pr *printer) mk(ts []TypeSpec, i int) string {
-	if ts[i].Kind == TOther {
+	switch ts[i].Kind {
+	case TOther:
 		return fmt.Sprintf("ext.MkX%d", ts[i].X)
+	case TBasic:
+		return "rt.Mk_" + BasicNames[ts[i].X]
+	case TParam:
+		return fmt.Sprintf("G%d", i) // conversion to the type parameter
 	}
 	return "mk" + pr.tname(i)
 }
 
 func (pr *printer) un(ts []TypeSpec, i int) string {
-	if ts[i].Kind == TOther {
+	switch ts[i].Kind {
+	case TOther:
 		return fmt.Sprintf("ext.UnX%d", ts[i].X)
+	case TBasic:
+		return "rt.Un_" + BasicNames[ts[i].X]
+	case TParam:
+		return "uint64"
 	}
 	return "un" + pr.tname(i)
 }
@@ -81,6 +109,10 @@ func (pr *printer) typeStr(ts []TypeSpec, i int) string {
 		return "[2]" + n + "e"
 	case TOther:
 		panic("a type of an unimported package cannot be spelled in the program file")
+	case TBasic:
+		return BasicNames[ts[i].X]
+	case TParam:
+		return fmt.Sprintf("G%d", i)
 	}
 	panic("type kind")
 }
@@ -88,7 +120,11 @@ func (pr *printer) typeStr(ts []TypeSpec, i int) string {
 func (pr *printer) declType(ts []TypeSpec, i int) {
 	n := pr.tname(i)
 	w := func(f string, a ...any) { fmt.Fprintf(&pr.b, f, a...) }
-	if ts[i].Kind == TOther {
+	switch ts[i].Kind {
+	case TOther, TBasic:
+		return
+	case TParam:
+		w("type %s uint64\n", n) // the type argument the program is instantiated with
 		return
 	}
 	T := pr.typeStr(ts, i)
@@ -265,7 +301,7 @@ func (pr *printer) predFunc(f *FlowP, t *TaskP) string {
 	}
 	for k, in := range t.Pred.In {
 		params = append(params, fmt.Sprintf("a%d %s", k, pr.typeStr(f.Types, in)))
-		args = append(args, fmt.Sprintf("un%s(a%d)", pr.tname(in), k))
+		args = append(args, fmt.Sprintf("%s(a%d)", pr.un(f.Types, in), k))
 	}
 	c := fmt.Sprintf("h.Pred(%d, %s", t.ID, ctxArg)
 	if len(args) > 0 {
@@ -274,10 +310,13 @@ func (pr *printer) predFunc(f *FlowP, t *TaskP) string {
 	return "func(" + strings.Join(params, ", ") + ") bool { return " + c + ") }"
 }
 
-func emitterOpts(pr *printer, n int, nest, shared bool) []string {
+func emitterOpts(pr *printer, n int, nest, shared, slice bool) []string {
 	var out []string
 	if shared {
 		out = append(out, "cff.WithEmitter("+pr.probe("emitter-shared", "h.SharedEmitter()")+")")
+	}
+	if slice {
+		return append(out, "cff.WithEmitter("+pr.probe("emitter-slice", "cff.EmitterStack(h.EmitterSlice()...)")+")")
 	}
 	i := 0
 	if nest && n >= 2 {
@@ -371,7 +410,20 @@ func (pr *printer) flow(f *FlowP) string {
 		}
 	}
 	var fb strings.Builder
-	fmt.Fprintf(&fb, "func %s(ctx context.Context, h rt.H, p []uint64) (res []uint64, err error) {\n", pr.p.Name)
+	var tparams, targs []string
+	for i, ts := range f.Types {
+		if ts.Kind == TParam {
+			tparams = append(tparams, fmt.Sprintf("G%d ~uint64", i))
+			targs = append(targs, pr.tname(i))
+		}
+	}
+	if len(tparams) > 0 {
+		g := strings.ToLower(pr.pfx) + "g"
+		fmt.Fprintf(&fb, "func %s(ctx context.Context, h rt.H, p []uint64) ([]uint64, error) {\n\treturn %s[%s](ctx, h, p)\n}\n\n", pr.p.Name, g, strings.Join(targs, ", "))
+		fmt.Fprintf(&fb, "func %s[%s](ctx context.Context, h rt.H, p []uint64) (res []uint64, err error) {\n", g, strings.Join(tparams, ", "))
+	} else {
+		fmt.Fprintf(&fb, "func %s(ctx context.Context, h rt.H, p []uint64) (res []uint64, err error) {\n", pr.p.Name)
+	}
 	fmt.Fprintf(&fb, "\tw := &%sw{h: h}\n\t_ = w\n", strings.ToLower(pr.pfx))
 	if f.ErrIdent {
 		fb.WriteString("\terr = rt.ErrMark\n")
@@ -402,6 +454,14 @@ func (pr *printer) flow(f *FlowP) string {
 			items = append(items, renderItem{render: func() string {
 				var a []string
 				for _, t := range part {
+					if f.MutArg && !pr.mutDone {
+						// a bare read of a variable that the next argument overwrites
+						pr.mutDone = true
+						pr.nargs++
+						a = append(a, pname[t])
+						pr.mutVar, pr.mutNew = pname[t], fmt.Sprintf("%s(%d)", pr.mk(f.Types, t), MutVal)
+						continue
+					}
 					a = append(a, pr.probe("param", pname[t]))
 				}
 				return "cff.Params(" + strings.Join(a, ", ") + ")"
@@ -426,7 +486,7 @@ func (pr *printer) flow(f *FlowP) string {
 		items = append(items, renderItem{render: func() string { return "cff.Concurrency(" + pr.probe("concurrency", "h.Conc(0)") + ")" }})
 	}
 	if f.Emitters > 0 {
-		items = append(items, renderItem{render: func() string { return strings.Join(emitterOpts(pr, f.Emitters, f.EmitNest, f.EmitShared), ",\n\t\t") }})
+		items = append(items, renderItem{render: func() string { return strings.Join(emitterOpts(pr, f.Emitters, f.EmitNest, f.EmitShared, f.EmitSlice), ",\n\t\t") }})
 		if f.InstrFlow {
 			items = append(items, renderItem{render: func() string {
 				return "cff.InstrumentFlow(" + pr.probe("instrument-flow", fmt.Sprintf("%q", "f"+fmt.Sprint(pr.p.ID))) + ")"
@@ -442,7 +502,7 @@ func (pr *printer) flow(f *FlowP) string {
 			}
 			var opts []func() string
 			if t.Pred != nil {
-				opts = append(opts, func() string { return "cff.Predicate(" + pr.predFunc(f, t) + ")" })
+				opts = append(opts, func() string { return "cff.Predicate(" + pr.fnProbe(rng, "predicate-func", pr.predFunc(f, t)) + ")" })
 			}
 			if t.Fallback {
 				opts = append(opts, func() string {
@@ -627,7 +687,7 @@ func (pr *printer) par(p *ParP) string {
 		}})
 	}
 	if p.Emitters > 0 {
-		items = append(items, renderItem{render: func() string { return strings.Join(emitterOpts(pr, p.Emitters, p.EmitNest, p.EmitShared), ",\n\t\t") }})
+		items = append(items, renderItem{render: func() string { return strings.Join(emitterOpts(pr, p.Emitters, p.EmitNest, p.EmitShared, p.EmitSlice), ",\n\t\t") }})
 		if p.InstrPar {
 			items = append(items, renderItem{render: func() string {
 				return "cff.InstrumentParallel(" + pr.probe("instrument-parallel", fmt.Sprintf("%q", "f"+fmt.Sprint(pr.p.ID))) + ")"
@@ -640,7 +700,7 @@ func (pr *printer) par(p *ParP) string {
 		t := &p.Tasks[i]
 		if t.Group == 0 {
 			items = append(items, renderItem{render: func() string {
-				s := "cff.Task(" + taskFn(t)
+				s := "cff.Task(" + pr.fnProbe(rng, "task-func", taskFn(t))
 				if t.Instr {
 					s += ", cff.Instrument(" + pr.probe("instrument", fmt.Sprintf("%q", fmt.Sprintf("t%d", t.ID))) + ")"
 				}
@@ -658,7 +718,7 @@ func (pr *printer) par(p *ParP) string {
 		items = append(items, renderItem{render: func() string {
 			var a []string
 			for _, t := range groups[g] {
-				a = append(a, taskFn(t))
+				a = append(a, pr.fnProbe(rng, "tasks-func", taskFn(t)))
 			}
 			return "cff.Tasks(" + strings.Join(a, ",\n\t\t\t") + ")"
 		}})
@@ -705,9 +765,17 @@ func (pr *printer) par(p *ParP) string {
 			if c.Map {
 				name, endName = "cff.Map", "cff.MapEnd"
 			}
-			s := name + "(" + fn + ", " + pr.probe("collection", info.varName)
+			s := name + "(" + pr.fnProbe(rng, "element-func", fn) + ", "
+			if p.MutArg && !pr.mutDone {
+				pr.mutDone = true
+				pr.nargs++
+				s += info.varName
+				pr.mutVar, pr.mutNew = info.varName, "nil"
+			} else {
+				s += pr.probe("collection", info.varName)
+			}
 			if c.End != nil {
-				s += ", " + endName + "(" + endFn(c) + ")"
+				s += ", " + endName + "(" + pr.fnProbe(rng, "end-func", endFn(c)) + ")"
 			}
 			return s + ")"
 		}})
